@@ -28,6 +28,16 @@ func ShrinkScenario(s *Scenario) []*Scenario {
 			})
 		}
 	}
+	for _, m := range s.Mods {
+		if m.OwnPrefix != 0 {
+			edit(func(c *Scenario) {
+				for _, x := range c.Mods {
+					x.OwnPrefix = 0
+				}
+			})
+			break
+		}
+	}
 	for mi, m := range s.Mods {
 		mi := mi
 		for i := range m.Augments {
